@@ -15,6 +15,10 @@ import traceback
 from concurrent.futures import ProcessPoolExecutor, as_completed
 import multiprocessing as mp
 
+for _v in ("OMP_NUM_THREADS", "OPENBLAS_NUM_THREADS", "MKL_NUM_THREADS", "NUMEXPR_NUM_THREADS"):
+    os.environ.setdefault(_v, "1")  # one BLAS thread per worker process (must precede numpy/torch import)
+os.environ.setdefault("PYTHONHASHSEED", "0")
+
 VERIF = os.path.dirname(os.path.dirname(os.path.abspath(__file__)))
 REPO = "/repo"
 GUARD_ENV = "OPTIMIZERS_VERIF"
